@@ -392,7 +392,7 @@ def run(P, R, tier):
     # write-target injectivity of the packing tasks (shared with C10.c)
     from rules import C10
     sub, sub_err = common.sub_results(P, R, 'C10')
-    if sub_err is not None and not any(o.status == 'violated' for o in list(R.obs) + list(sub.obs)):
+    if sub_err is not None and not __import__('report').unlisted(list(R.obs) + list(sub.obs)):
         raise sub_err
     k = 0
     for o in sub.obs:
